@@ -22,12 +22,12 @@ def BOUNDS(tier):
     q = tier == "quick"
     return dict(M_N=10 if q else 11, D_K=4 if q else 5, D_lengths=[1, 2], D_gaps=[0, 1],
                 D6="none" if q else "all 10395 diagrams x all-ones lengths x gap 0",
-                special="ladder, path, star, two independent ladders; 7 stems%s" % ("" if q else " and 8 stems"))
+                special="ladder, path, star, two independent ladders; 7 and 8 stems")
 
 
-def _from_arcs(arcs, name):
+def _from_arcs(arcs, name, gap=0):
     K = len(arcs)
-    c = enum2d.chord_structure(tuple(arcs), [1] * K, [0] * (2 * K + 1))
+    c = enum2d.chord_structure(tuple(arcs), [1] * K, [gap] * (2 * K + 1))
     c["special"] = name
     return c
 
@@ -46,7 +46,7 @@ def _special(kmax):
         # star: arc 0 spans the openers of all others, which are nested-free and mutually non-crossing:
         # 0 opens, then K-1 openers ... arc 0 closes, then each closes in reverse order (nested among themselves)
         arcs = [(0, K)] + [(i, 2 * K - i) for i in range(1, K)]
-        yield _from_arcs(arcs, "star%d" % K)
+        yield _from_arcs(arcs, "star%d" % K, gap=1)  # gap 1: without it the nested arcs stack into ONE stem and the 'star' has two stems
         # two triangles sharing a stem + path remainder: ladder3 on (a,b,c) and ladder3 on (c,d,e) is not planar-free; use two components instead
         k1 = K // 2
         k2 = K - k1
@@ -92,7 +92,7 @@ def families(tier):
         ("mapping", lambda: mapping_cases(tier), 1),
         ("M", lambda: enum2d.M(10 if q else 11), 1),
         ("D", lambda: enum2d.D(4 if q else 5), 1),
-        ("special", lambda: _special(7 if q else 8), 1),
+        ("special", lambda: _special(8), 1),
     ]
     if not q:
         fams.append(("D6", lambda: enum2d.D(6, kmin=6, lens=(1,), gapvals=(0,)), 1))
